@@ -503,6 +503,8 @@ static void run_iter(const char* subj, Rng& g, long nops, std::size_t block, Mak
     using It = iteration_allocator<N, SrcArg>;
     It*                                 it = nullptr;
     std::vector<std::vector<long>> ids(N); // allocations per iteration slot
+    std::size_t                    own_cur = 0; // generation label kept by the history alone (never read from the allocator): which allocations the next
+                                                // next_iteration() is allowed to recycle
     {
         void*       mem = R->place_object(sizeof(It), alignof(It), true);
         std::string res = guarded([&] { it = make(mem); });
@@ -530,7 +532,7 @@ static void run_iter(const char* subj, Rng& g, long nops, std::size_t block, Mak
             {
                 long id = next_id++;
                 O->on_alloc(id, p, size, al, "iteration.allocate");
-                ids[it->cur_iteration()].push_back(id);
+                ids[own_cur].push_back(id);
                 res = fmt("ok %zu", R->off(p));
                 ++n_ok;
             }
@@ -549,7 +551,7 @@ static void run_iter(const char* subj, Rng& g, long nops, std::size_t block, Mak
             {
                 long id = next_id++;
                 O->on_alloc(id, p, size, 1, "iteration.allocate(brim)");
-                ids[it->cur_iteration()].push_back(id);
+                ids[own_cur].push_back(id);
                 res = fmt("ok %zu", R->off(p));
                 ++n_ok;
             }
@@ -602,10 +604,11 @@ static void run_iter(const char* subj, Rng& g, long nops, std::size_t block, Mak
         {
             O->verify_all("before next_iteration");
             it->next_iteration();
+            own_cur = (own_cur + 1) % N;
             // memory of the slot we switched to is now recycled
-            for (long id : ids[it->cur_iteration()])
+            for (long id : ids[own_cur])
                 O->forget(id);
-            ids[it->cur_iteration()].clear();
+            ids[own_cur].clear();
             O->verify_all("after next_iteration");
             emit(fmt("%s next", subj), "done", iter_state(*it));
         }
